@@ -487,6 +487,9 @@ class StmtMixin:
             elif n in p.env:
                 p.env[n] = self.havoc_like(p.env[n], n)
         mods = self.cur_modifies(p) if self.cur_contract is not None and self.frame_depth == 0 else None
+        # attributes written through interface setters: the fields their contracts modify
+        amap = getattr(self.registry, "attr_fields", {})
+        fields = set().union(*[set(amap.get(f, [f])) for f in fields]) if fields else fields
         for f in sorted(fields):
             p.heap_havoc(self, None if mods is None else self._mod_ref(mods, f), f, "loop")
         if effect_calls:
